@@ -382,7 +382,10 @@ def compare_batch(ctx, batch):
                 ctx.disagree('corr:c18.roundtrip', inp, loaded, rep['loaded']['ok'])
     ctx.count('rounding_straddles', stats['straddle'])
     if stats['straddle'] > max(3, len(batch) // 200):
-        raise common.MachineryError('too many rounding-boundary straddles (%d): the %%g comparison is not discriminating' % stats['straddle'])
+        # code and model write different sixth digits far more often than double rounding explains: the tie is broken
+        # (not a machinery failure: a changed formatter produces exactly this symptom)
+        ctx.disagree('corr:c18.format', {'rounding_boundary_straddles': stats['straddle'], 'cases': len(batch)},
+                     'sixth significant digit as written by the implementation', 'sixth significant digit of the exact product')
 
 
 # -------------------------------------------------------------------------------------------------------------- shipped
